@@ -270,7 +270,9 @@ def run(ctx):
         ctx.notes.setdefault("negative_controls", {})[variant] = res.violated
     if ctx.thorough:
         plan = [
-            dict(depth=2, strategy="LOWERCASE", normalize=True, maxops=4, styles=("s", "iq"), cols=("a", "A"), dialects=["", "postgres"]),
+            # maxops=4 over the small universe emits ~10^7 transitions (tens of GB once decoded): the 4-operation histories run on the tiny universe
+            dict(depth=2, strategy="LOWERCASE", normalize=True, maxops=4, styles=("s",), cols=("a",), dialects=["", "postgres"], universe="tiny"),
+            dict(depth=2, strategy="LOWERCASE", normalize=True, maxops=3, styles=("s", "iq"), cols=("a", "A"), dialects=["", "postgres"]),
             dict(depth=2, strategy="LOWERCASE", normalize=True, maxops=3, styles=("s", "sq", "i", "iq"), cols=("a", "A", "T"), dialects=[""]),
             dict(depth=2, strategy="UPPERCASE", normalize=True, maxops=3, styles=("s", "sq", "i", "iq"), cols=("a", "A"), dialects=["snowflake", "oracle"]),
             dict(depth=2, strategy="CASE_SENSITIVE", normalize=True, maxops=3, styles=("s", "iq"), cols=("a", "A"), dialects=["mysql", "clickhouse"]),
@@ -278,7 +280,7 @@ def run(ctx):
             dict(depth=2, strategy="CASE_INSENSITIVE_UPPERCASE", normalize=True, maxops=3, styles=("s", "iq"), cols=("a", "A"), dialects=STRATEGY_DIALECTS["CASE_INSENSITIVE_UPPERCASE"]),
             dict(depth=2, strategy="BQ", normalize=True, maxops=3, styles=("s", "iq"), cols=("a", "T", "t"), dialects=["bigquery"]),
             dict(depth=3, strategy="LOWERCASE", normalize=True, maxops=3, styles=("s", "iq"), cols=("a", "A"), dialects=[""]),
-            dict(depth=1, strategy="LOWERCASE", normalize=True, maxops=4, styles=("s", "iq"), cols=("a", "A"), dialects=["", "postgres"]),
+            dict(depth=1, strategy="LOWERCASE", normalize=True, maxops=3, styles=("s", "iq"), cols=("a", "A"), dialects=["", "postgres"]),
             dict(depth=2, strategy="LOWERCASE", normalize=False, maxops=3, styles=("s", "iq"), cols=("a", "A"), dialects=[""]),
             dict(depth=3, strategy="BQ", normalize=True, maxops=3, styles=("s",), cols=("a", "T"), dialects=["bigquery"]),
         ]
